@@ -475,7 +475,8 @@ def native_replay(scratch, crate, harness, values, expect_msgs, features=None, n
     ran = re.search(r'test .*' + re.escape(harness) + r' \.\.\. (ok|FAILED)', out)
     panicked = 'panicked at' in out
     hit = [m for m in expect_msgs if m and m in out]
-    confirmed = bool(panicked and (hit or (ran and ran.group(1) == 'FAILED')))
+    # confirmed only when the native run fails with the *same* obligation message
+    confirmed = bool(panicked and hit)
     note = 'native run of the harness with the counterexample values ' + ('panicked' if panicked else 'did not panic')
     if 'VERIF-REPLAY: assumption violated' in out:
         note = 'recorded values violate a harness assumption natively'
